@@ -10,6 +10,7 @@
  */
 #define _GNU_SOURCE
 #include <stdio.h>
+#include <sys/time.h>
 #include <stdlib.h>
 #include <string.h>
 #include <stdarg.h>
@@ -154,10 +155,12 @@ static unsigned garbage_flags0(int md, uint64_t gseed) {
 static char *tok[8]; static int ntok;
 static void split(char *line) { ntok = 0; char *s = strtok(line, " \t\r\n"); while (s && ntok < 8) { tok[ntok++] = s; s = strtok(NULL, " \t\r\n"); } }
 
+/* watchdog on the CPU time of this process (robust on a loaded machine): no library call needs more than a few ms */
+static void arm_watchdog(void) { struct itimerval it; memset(&it, 0, sizeof it); it.it_value.tv_sec = 4; setitimer(ITIMER_VIRTUAL, &it, NULL); }
 static void on_alarm(int sig) { (void)sig; static const char m[] = "TIMEOUT: a library call did not return within the watchdog limit\n"; if (write(2, m, sizeof m - 1)) {} _exit(97); }
 static void exec_line(const char *line_in) {
     char *line = strdup(line_in); split(line);
-    alarm(20);
+    arm_watchdog(); alarm(60);
     int k = 0, a = 0;
     if (ntok && tok[0][0] == '@') { k = atoi(tok[0] + 1) % NOBJ; a = 1; }
     if (ntok <= a) { free(line); return; }
@@ -823,7 +826,7 @@ static void load_corpus_case(long id, const char *path, int valid) {
 
 int main(int argc, char **argv) {
     setvbuf(stdout, NULL, _IOFBF, 1 << 16);
-    signal(SIGALRM, on_alarm);
+    signal(SIGALRM, on_alarm); signal(SIGVTALRM, on_alarm);
     memset(LONG127, 'k', 127); memset(LONG128, 'k', 128); memset(LONG321, 'k', 321); memset(LONG33000, 'k', 33000);
     qsort(NM, NNM, sizeof *NM, namecmp);
     if (argc >= 4 && !strcmp(argv[1], "replay")) {
